@@ -343,7 +343,9 @@ def hx4(F, R):
     for b in froms:
         m = re.search(r"From<(\w+)>", b.trait_ref or "")
         ty = m.group(1) if m else "?"
-        if ty == "bool":
+        if ty not in ("i64", "f64"):
+            # C15 states the inverse pair for i64 and f64 only (to_i64 / to_f64); the byte order of the narrower conversions has
+            # no reader to agree with, and for i8 both orders are the same byte
             continue
         names = [t["callee"].get("name") for _, t in b.calls()]
         R.analysed(b, len(names))
@@ -364,7 +366,7 @@ def hx4(F, R):
             R.bad("HX4", "HX4/Hex::from<%s>/endianness" % ty, b.where(),
                   "From<%s> does not use big-endian encoding (calls: %s) while to_i64/to_f64 decode big-endian: the conversions "
                   "are not inverses" % (ty, [x for x in names if x and "bytes" in x]))
-    R.floor("HX4", "numeric From impls for Hex", n, 6)
+    R.floor("HX4", "From<i64> / From<f64> for Hex", n, 2)
     for name, ty in (("to_i64", "i64"), ("to_f64", "f64")):
         b = F.fn("Hex", name)
         if b is None:
